@@ -169,6 +169,21 @@ func (p *pkg) evalInt(e ast.Expr) (int64, bool) {
 		if id, ok := e.Fun.(*ast.Ident); ok && len(e.Args) == 1 && (id.Name == "int" || id.Name == "uint" || id.Name == "int64") {
 			return p.evalInt(e.Args[0])
 		}
+	case *ast.IndexExpr: // []rune("…")[k]: the k-th rune of a string constant
+		if ce, ok := e.X.(*ast.CallExpr); ok && len(ce.Args) == 1 {
+			if at, ok := ce.Fun.(*ast.ArrayType); ok && at.Len == nil {
+				if id, ok := at.Elt.(*ast.Ident); ok && id.Name == "rune" {
+					if str, ok := p.evalStr(ce.Args[0]); ok {
+						if k, ok := p.evalInt(e.Index); ok {
+							rs := []rune(str)
+							if k >= 0 && int(k) < len(rs) {
+								return int64(rs[k]), true
+							}
+						}
+					}
+				}
+			}
+		}
 	}
 	return 0, false
 }
